@@ -35,6 +35,13 @@ theorem bind_panic {α β} {m : Dec α} {f : α → Dec β} {bs : Bytes}
   | mk k o =>
     rw [hm] at h; simp only at h; subst h; rfl
 
+theorem charge_out {α} (a : Nat) (m : Dec α) (bs : Bytes) : (charge a m bs).out = (m bs).out := rfl
+
+theorem chargeOk_out {α} (a : Nat) (m : Dec α) (bs : Bytes) : (chargeOk a m bs).out = (m bs).out := by
+  unfold chargeOk
+  cases hm : m bs with
+  | mk k o => cases o <;> rfl
+
 @[simp] theorem pure_out {α} (a : α) (bs : Bytes) : ((pure a : Dec α) bs).out = .ok a bs := rfl
 @[simp] theorem tick_out (n : Nat) (bs : Bytes) : (tick n bs).out = .ok () bs := rfl
 @[simp] theorem remaining_out (bs : Bytes) : (remaining bs).out = .ok bs.length bs := rfl
@@ -194,7 +201,7 @@ theorem readN_enc {α} (a : Nat) (f : Dec α) (enc : α → Bytes) : ∀ (xs : L
   | cons x xs ih =>
     intro r h
     simp only [List.length_cons, List.map_cons, List.flatten_cons, List.append_assoc, readN]
-    rw [bind_ok (tick_out _ _), bind_ok (h x (by simp) _),
+    rw [bind_ok (by rw [charge_out]; exact h x (by simp) _),
       bind_ok (ih r (fun y hy => h y (by simp [hy])))]
     simp
 
@@ -209,7 +216,7 @@ theorem readN_enc' {α} (a : Nat) (f : Dec α) (enc : α → Bytes) (g : α → 
   | cons x xs ih =>
     intro r h
     simp only [List.length_cons, List.map_cons, List.flatten_cons, List.append_assoc, readN]
-    rw [bind_ok (tick_out _ _), bind_ok (h x (by simp) _),
+    rw [bind_ok (by rw [charge_out]; exact h x (by simp) _),
       bind_ok (ih r (fun y hy => h y (by simp [hy])))]
     simp
 
